@@ -923,9 +923,21 @@ func roleOpsBelow(p *Prog, env *Env, q string, depth int) roleOpInfo {
 }
 
 // isRoleRemover: a module function that shrinks a role list (stores a re-slice into the Roles field of an ESDTRoles).
-func isRoleRemover(fn *ssa.Function) bool {
+func isRoleRemover(fn *ssa.Function) bool { return isRoleRemoverRec(fn, 0) }
+
+func isRoleRemoverRec(fn *ssa.Function, depth int) bool {
 	for _, b := range fn.Blocks {
 		for _, in := range b.Instrs {
+			// the removal itself extracted into a helper that is handed the list (`removeRoleAtIndex(roles, index)`)
+			if call, ok := in.(*ssa.Call); ok && depth < 2 {
+				if sc := call.Call.StaticCallee(); sc != nil && len(sc.Blocks) > 0 && sc != fn && sc.Pkg != nil && strings.HasPrefix(sc.Pkg.Pkg.Path(), modPath) {
+					for _, a := range call.Call.Args {
+						if strings.HasSuffix(a.Type().String(), "esdt.ESDTRoles") && isRoleRemoverRec(sc, depth+1) {
+							return true
+						}
+					}
+				}
+			}
 			if st, ok := in.(*ssa.Store); ok {
 				if fa, ok := st.Addr.(*ssa.FieldAddr); ok && isFieldOf(fa, "esdt.ESDTRoles", "Roles") {
 					if rootedAtReslice(st.Val, map[ssa.Value]bool{}) {
